@@ -104,7 +104,8 @@ def parse_replay(path):
         if t[0] == "buildtsm":
             for kvp in t[1:]:
                 k, v = kvp.split("=")
-                hdr[k] = int(v)
+                if v.lstrip("-").isdigit():
+                    hdr.setdefault(k, int(v))
     name = [ln for ln in lines if ln.startswith("case ")][0][5:].strip()
     meta = {"replay": True}
     for ln in lines:
